@@ -25,6 +25,14 @@ CLAIMED = {
              'decides absence of the enumerated sink classes, not termination time.',
         note=STATIC_NOTE + ' Taint triage table: analysis/tables.py C16_TAINT_TRIAGE (one reason per accepted flow).',
         technique='static analysis: inter-procedural taint (HIR) + dominance guards + checked-decoder call-graph rules'),
+    'C18': dict(
+        text='Static sibling-table rules for the two ZKIR interpreters: variant exhaustiveness in every per-operation table, arity/index agreement '
+             'with the load-time arity check, per-operation type-domain agreement (canonicalised match arms, guards and TryFrom conversion targets), '
+             'taint of decoded program constants to panic sinks, chip-accessor enablement against used_chips, public-input type bookkeeping and '
+             'encode/decode type agreement. Decides agreement of the accepted *domains* and totality clauses; value-level agreement of the two '
+             'interpreters is not decided.',
+        note=STATIC_NOTE,
+        technique='static analysis: HIR match-arm tables (sibling cross-check) + taint + call-graph reachability per interpreter arm'),
 }
 
 NOT_APPLICABLE = {
